@@ -10,7 +10,7 @@ for d in seeded/C*-*/; do
   n=$(basename $d); id=${n%-*}
   [ -n "$ONLY" ] && ! echo " $ONLY " | grep -q " $n " && continue
   checks=$id
-  case $n in C01-b|C01-h) checks="C01 C14";; C02-b) checks="C02 C13";; C12-a) checks="C12 C06";; C11-c) checks="C11 C14";; C18-c) checks="C18";; C19-e) checks="C19 C09S";; esac
+  case $n in C01-b|C01-h) checks="C01 C14";; C02-b) checks="C02 C13";; C12-a) checks="C12 C06";; C11-c) checks="C11 C14";; C18-c) checks="C18";; C19-e) checks="C19 C09S";; C01-j) checks="C01 C14";; C09-k) checks="C09 C14";; C10-j) checks="C10 C09";; esac
   for ck in $checks; do
     LINES_MAX=4 tools/seedtest_ns.sh $ck $d/patch.diff quick > /tmp/sm.$n.$ck.log 2>&1
     rc=$(grep -a '^exit=' /tmp/sm.$n.$ck.log | cut -d= -f2)
